@@ -92,6 +92,15 @@ def r1234_writer(ctx, chk):
             chk.violation(rule, where, "the label %r is written twice in a block" % label, expected="once", found="twice", construct="save_results duplicate label %s" % label)
             continue
         seen[label] = True
+        if cond != TRUE and label not in LABELS:
+            # a further line that only some entries carry: the property lists the lines a block has, it does not forbid more;
+            # such a line must still be a line of its own (checked below for every unlisted label)
+            if not (is_const(tail) and isinstance(tail[1], str) and tail[1].endswith("\n")) or parts[0][1].count("\n"):
+                chk.violation(rule, where, "the optional line %r does not end its own line: the next line of the block is glued to it" % label,
+                              expected="one line per label", found=show(arg)[:120], construct="save_results optional line %s" % label)
+            else:
+                chk.note("optional report line %r (written when `%s`)" % (label, show(cond)[:80]))
+            continue
         if cond != TRUE:
             chk.violation(rule, where, "the line %r is written only if `%s`: some entries lack it" % (label, show(cond)), expected="unconditional", found=show(cond),
                           construct="save_results conditional line %s" % label)
@@ -225,16 +234,28 @@ def norm_path(t, param):
     from .C17 import flatten_str, merge_lits
     if t[0] == "mcall" and t[2] == "join" and t[1] == ("attr", ("v", "os"), "path"):
         t = ("call", "os.path.join", t[3], ())
-    if t[0] == "call" and t[1] == "os.path.join" and len(t[2]) == 2 and is_const(t[2][0]):
+    from .C17 import _is_directory
+
+    def free_of_param(x):
+        return not any(y == param for y in C02._sub(x))
+    if t[0] == "call" and t[1] == "os.path.join" and len(t[2]) == 2 and (is_const(t[2][0]) or free_of_param(t[2][0])):
         pieces = merge_lits(flatten_str(t[2][1]))
         if len(pieces) == 2 and pieces[0][0] == "hole" and pieces[1][0] == "lit":
             st = norm_stem(_unfmt(pieces[0][1]), param)
-            return None if st is None else (t[2][0][1].rstrip("/"), st, pieces[1][1])
+            # a directory that is chosen by the caller (an --output_dir option) is still only a directory: the property is about the name
+            return None if st is None else (t[2][0][1].rstrip("/") if is_const(t[2][0]) else "outputs", st, pieces[1][1])
         return None
     pieces = merge_lits(flatten_str(t))
     if len(pieces) == 3 and pieces[0][0] == "lit" and pieces[1][0] == "hole" and pieces[2][0] == "lit" and pieces[0][1].endswith("/"):
         st = norm_stem(_unfmt(pieces[1][1]), param)
         return None if st is None else (pieces[0][1].rstrip("/"), st, pieces[2][1])
+    if len(pieces) >= 3 and pieces[-1][0] == "lit" and pieces[-2][0] == "hole":
+        st = norm_stem(_unfmt(pieces[-2][1]), param)
+        before = pieces[:-2]
+        last = before[-1]
+        if st is not None and all(k == "lit" or free_of_param(v) for k, v in before) and \
+                ((last[0] == "lit" and last[1].endswith("/")) or (last[0] == "hole" and _is_directory(last[1]))):
+            return ("outputs", st, pieces[-1][1])
     return None
 
 
